@@ -6,7 +6,7 @@ from concurrent.futures import ThreadPoolExecutor
 from dataclasses import dataclass
 from math import ceil, log2
 from operator import attrgetter
-from queue import Queue, SimpleQueue
+from queue import Empty, Queue, SimpleQueue
 from threading import Thread
 from typing import Dict, Iterator, List, Optional, Tuple, Union
 
@@ -452,8 +452,13 @@ class HttpFetcherThread(Thread):
 
     def run(self) -> None:
         with HttpRangeStream(self.url) as http_reader:
-            while not self.query_queue.empty():
-                offset, size = self.query_queue.get()
+            while True:
+                # testing for emptiness and then taking an item are two steps,
+                # another worker may take the last item in between
+                try:
+                    offset, size = self.query_queue.get_nowait()
+                except Empty:
+                    break
                 try:
                     http_reader.seek(offset)
                     data = http_reader.read(size)
